@@ -121,7 +121,11 @@ def outside_block(rep, repo, smod, init, flat):
     sup = [c for c in find_all(wi, ast.Call) if cz(c.func) == 'super().__init__']
     kws = {k.arg: cz(k.value) for k in sup[0].keywords} if sup else {}
     ok = kws.get('c_caps_min') == '4' and kws.get('c_caps') == 'c_caps' and kws.get('c_reuse') == 'c_reuse' and kws.get('strip_forks') == 'strip_forks' and kws.get('a_ctrl') == 'a_ctrl'
-    rep.ob('C08.alloc', 'WaveSim passes c_caps, c_caps_min=4, a_ctrl, c_reuse, strip_forks to SimOps', ok)
+    from checks import wavesim_init_eval
+    if wavesim_init_eval.decide(rep, repo, 'C08.alloc', ('super',)):
+        ok = True           # decided by evaluating WaveSim.__init__ with a recording base-class constructor
+    else:
+        rep.ob('C08.alloc', 'WaveSim passes c_caps, c_caps_min=4, a_ctrl, c_reuse, strip_forks to SimOps', ok)
     if not ok:
         rep.violate('C08.alloc', wmod, wi, sup[0] if sup else 'super().__init__', 'WaveSim.__init__ must forward c_caps, a_ctrl, c_reuse, strip_forks and c_caps_min=4 (the kernel needs room for TMIN, one edge and the terminator)', node=wi)
     lmod = repo.mod('logic_sim')
